@@ -337,6 +337,7 @@ bytes_from_vec (const char v[64], unsigned char b[8])
 }
 
 static struct crypt_data *RD;
+static unsigned char *RDarena;
 
 static void
 api_case (const unsigned char key[8], const unsigned char blk[8], unsigned char junk, const char *what)
@@ -366,6 +367,30 @@ api_case (const unsigned char key[8], const unsigned char blk[8], unsigned char 
     why = "encrypt differs from FIPS 46-3 DES";
   else if (memcmp (lo, lo2, 8))
     why = "static and re-entrant variants disagree";
+  /* struct crypt_data has only char members: the object may live at any address, and may be moved (keeping its alignment) between the two calls */
+  for (int off = 0; off < 16 && !why; off++)
+    {
+      struct crypt_data *o = (struct crypt_data *) (RDarena + off), *o2 = (struct crypt_data *) (RDarena + 64 + off);      /* same alignment: the scratch area is laid out relative to aligned addresses */
+      memset (o, junk ? 0x5A : 0, sizeof *o);
+      o->initialized = 0;
+      vec_from_bytes (blk, junk, bv2);
+      p_setkey_r (kv, o);
+      if (off & 1)
+        {
+          memmove (o2, o, sizeof *o);
+          memset (o, 0xC3, (size_t) ((char *) o2 - (char *) o));
+          o = o2;
+        }
+      p_encrypt_r (bv2, 0, o);
+      vh_stat ("evaluations", 1);
+      vh_stat ("api_object_placements", 1);
+      if (!bytes_from_vec (bv2, lo2) || memcmp (lo2, ro, 8))
+        {
+          static char wbuf[120];
+          snprintf (wbuf, sizeof wbuf, "setkey_r/encrypt_r wrong for an object at address offset %d%s", off, (off & 1) ? " moved between the calls" : "");
+          why = wbuf;
+        }
+    }
   if (!why)
     {
       /* key parity bits are ignored */
@@ -546,6 +571,7 @@ main (int argc, char **argv)
   if (!p_setkey || !p_encrypt || !p_setkey_r || !p_encrypt_r)
     vh_internal ("obsolete DES API not exported by the library build");
   RD = calloc (1, sizeof *RD);
+  RDarena = calloc (1, sizeof *RD + 128);
   if (vh_replay && *vh_replay)
     {
       /* families are cheap: replay runs the named family completely */
